@@ -146,7 +146,7 @@ Fail(msg) ==
 
 Keep(vs) == UNCHANGED vs /\ UNCHANGED obsErr
 
-RemoveAt(s, i) == SubSeq(s, 1, i - 1) \o SubSeq(s, i + 1, Len(s))
+DropAt(s, i) == SubSeq(s, 1, i - 1) \o SubSeq(s, i + 1, Len(s))
 Max2(a, b) == IF a > b THEN a ELSE b
 Min2(a, b) == IF a < b THEN a ELSE b
 
@@ -228,7 +228,7 @@ EvEnqAbort(ep, h, g) ==
     LET idx == {i \in DOMAIN enq[ep] : enq[ep][i].h = h /\ enq[ep][i].g = g} IN
     IF idx = {} THEN Fail("EnqAbort: message was not enqueued")
     ELSE LET i == CHOOSE j \in idx : \A k \in idx : k <= j IN
-         /\ enq' = [enq EXCEPT ![ep] = RemoveAt(@, i)]
+         /\ enq' = [enq EXCEPT ![ep] = DropAt(@, i)]
          /\ Keep(<<sm, linked, st, transCount, pendTrans, firstPend, sendFailed, outBytes, batchCount,
                    wire, sent, inBuf, recvQ, cur, pend, sizes, recvErr, errCount, stopSeen, exits, timer,
                    timeouts, handled>>)
@@ -242,7 +242,7 @@ EvDeq(ep, h, mt, len, n) ==
            THEN Fail("Deq: overtakes an earlier message of the same sender")
          ELSE IF n # batchCount[ep] + 1 \/ n > MaxBatch THEN Fail("Deq: batch counter")
          ELSE IF sendFailed[ep] THEN Fail("Deq: after a failed send transition")
-         ELSE /\ enq' = [enq EXCEPT ![ep] = RemoveAt(@, i)]
+         ELSE /\ enq' = [enq EXCEPT ![ep] = DropAt(@, i)]
               /\ pendTrans' = [pendTrans EXCEPT ![ep] = Append(@, mt)]
               /\ firstPend' = [firstPend EXCEPT ![ep] = IF n = 1 THEN TRUE ELSE @]
               /\ outBytes' = [outBytes EXCEPT ![ep] = @ + len]
